@@ -162,9 +162,10 @@ def run_c21(rnd, tier, v, stats):
             else:
                 script.append(1000)
         m.accept = list(script)
-        for g in grams:
-            m.gramit(g, "D")
-        inp = dict(grams=[g.decode() for g in grams], script=[s if isinstance(s, int) else "unreachable" for s in script])
+        dsts = [rnd.choice(["D", "D", "E"]) for _ in grams]
+        for g, d_ in zip(grams, dsts):
+            m.gramit(g, d_)
+        inp = dict(grams=[g.decode() for g in grams], dsts=dsts, script=[s if isinstance(s, int) else "unreachable" for s in script])
         stats["distinct"].add(repr(inp))
         if it < 2:
             stats["samples"].append(inp)
@@ -178,13 +179,14 @@ def run_c21(rnd, tier, v, stats):
             v("C21/service-raised", inp, repr(ex)[:100])
             continue
         stats["evals"] += 1
-        wire = b"".join(g for g, d in m.outbox)
-        # expected: every gram in order, in full, except that a gram may be cut short where an unreachable error dropped its remainder
         nun = sum(1 for s in script if not isinstance(s, int))
-        pos = 0
-        ok = True
-        droppedn = 0
-        for g in grams:
+        for dd in ("D", "E"):
+          wire = b"".join(g for g, d in m.outbox if d == dd)
+          # expected per destination: every gram in queue order, in full, except where an unreachable error dropped a remainder
+          pos = 0
+          ok = True
+          droppedn = 0
+          for g in [g_ for g_, d_ in zip(grams, dsts) if d_ == dd]:
             if wire[pos:pos + len(g)] == g:
                 pos += len(g)
                 continue
@@ -194,8 +196,8 @@ def run_c21(rnd, tier, v, stats):
                 k += 1
             droppedn += 1
             pos += k
-        if pos != len(wire) or droppedn > nun:
-            v("C21/grams-lost-duplicated-or-reordered", inp, wire.decode(), b"".join(grams).decode())
+          if pos != len(wire) or droppedn > nun:
+            v("C21/grams-lost-duplicated-or-reordered", dict(inp, dst=dd), wire.decode(), b"".join(g_ for g_, d_ in zip(grams, dsts) if d_ == dd).decode())
         if m.txgs or m.txbs[1] is not None:
             v("C21/pending-gram-never-sent", inp, dict(txgs=len(m.txgs), txbs=bytes(m.txbs[0]).decode()))
 
@@ -256,6 +258,47 @@ def run_c22(rnd, tier, v, stats):
         for m, s, vd in list(rx.inbox) + list(rx.rxms):
             if signed and m != memo:
                 v("C22/tampered-memo-delivered", inp, m[:40], memo[:40])
+    # two signers, one memo id: an attacker with its OWN valid key reuses an observed memo id.  Whatever the interleaving,
+    # a delivered memo must be one signer's content, attributed to that signer.
+    import itertools as _it
+    for it in range(12 if tier == "quick" else 120):
+        size = rnd.choice([200, 260])
+        vs, va = vids[0], vids[1]
+        ms = "victim says: " + "pay account 01 " * 12
+        ma = "attacker says: " + "pay account 99 " * 12
+        txs = make(MemoDex.GramAuthZero, False, size, vid=vs)
+        txs.memoit(ms, "dst", vs)
+        txs.serviceTxMemos()
+        while txs.txgs:
+            txs.serviceTxGrams()
+        gs = [g for g, d in txs.outbox if g]
+        probe = make(MemoDex.GramAuthZero, False, size, authic=True, vid=vs)
+        mid = probe.pick(bytearray(gs[0]))[0]    # the observed memo id, as the receiver parses it
+        mid = mid.decode() if hasattr(mid, "decode") else mid
+        txa = make(MemoDex.GramAuthZero, False, size, vid=va)
+        txa.makeMID = lambda *a, **k: mid
+        txa.memoit(ma, "dst", va)
+        txa.serviceTxMemos()
+        while txa.txgs:
+            txa.serviceTxGrams()
+        ga = [g for g, d in txa.outbox if g]
+        allg = [("s", g) for g in gs[:3]] + [("a", g) for g in ga[:3]]
+        perms = list(_it.permutations(range(len(allg)))) if len(allg) <= 5 else [rnd.sample(range(len(allg)), len(allg)) for _ in range(60)]
+        for perm in (perms if tier != "quick" else rnd.sample(perms, min(40, len(perms)))):
+            rx = make(MemoDex.GramAuthZero, False, size, authic=True, vid=vs)
+            try:
+                for k in perm:
+                    rx.rxq.append((allg[k][1], "src"))
+                    rx.serviceAllRx()
+                rx.serviceAllRx()
+            except Exception as ex:   # noqa
+                v("C22/receive-side-raised", dict(scenario="two signers one memo id", witness_class=type(ex).__name__), repr(ex)[:100])
+                continue
+            stats["evals"] += 1
+            for m, s_, vd in list(rx.inbox) + list(rx.rxms):
+                if (m, vd) not in ((ms, vs), (ma, va)):
+                    v("C22/memo-mixes-or-misattributes-signers", dict(scenario="two signers one memo id", order=["%s%d" % (allg[k][0], k % 3) for k in perm]),
+                      dict(memo=m[:60], vid=vd), "victim's memo with victim's vid, or attacker's with attacker's")
     # pure garbage datagrams
     for it in range(200 if tier == "quick" else 3000):
         rx = make(MemoDex.GramZero, False, None, authic=rnd.random() < 0.5, vid=vids[0])
